@@ -76,6 +76,10 @@ var (
 	curRunMu    sync.Mutex
 	curRun      runInfo
 	onHang      func(info runInfo, origin, site, stack string)
+	// onHangMinimising: a candidate tape of the delta debugger never finishes (a spin cannot be unwound): the
+	// failure being minimised is reported with the tape it was found with
+	onHangMinimising func()
+	minimising       bool
 )
 
 func startWatchdog(limit time.Duration) {
@@ -88,10 +92,23 @@ func startWatchdog(limit time.Duration) {
 			if !ri.active || time.Since(ri.started) < limit {
 				continue
 			}
-			buf := make([]byte, 1<<20)
-			n := runtime.Stack(buf, true)
-			stack := string(buf[:n])
-			origin, site := hangOrigin(stack)
+			// the spinning loop is sampled a few times: it may be inside sonic at one instant and inside a transport
+			// stub that sonic calls in a loop at the next; the run is sonic's if any sample is
+			if minimising && onHangMinimising != nil {
+				onHangMinimising()
+				os.Exit(4)
+			}
+			var origin, site, stack string
+			for k := 0; k < 5; k++ {
+				buf := make([]byte, 1<<20)
+				n := runtime.Stack(buf, true)
+				stack = string(buf[:n])
+				origin, site = hangOrigin(stack)
+				if origin == "sonic" {
+					break
+				}
+				time.Sleep(50 * time.Millisecond)
+			}
 			if onHang != nil {
 				onHang(ri, origin, site, stack)
 			}
@@ -114,12 +131,10 @@ func hangOrigin(stack string) (origin, site string) {
 				continue
 			}
 			if strings.HasPrefix(l, "github.com/talostrading/sonic") {
-				fn := l
-				if i := strings.LastIndex(fn, "("); i > 0 {
-					fn = fn[:i]
-				}
-				fn = strings.NewReplacer("(", "", ")", "", "*", "").Replace(fn)
-				return "sonic", strings.Trim(strings.TrimPrefix(fn, "github.com/talostrading/sonic"), "/.")
+				// innermost frame that is not the runtime's or the simulator's is sonic's: the loop is in sonic. The
+				// site reported is the OUTERMOST sonic frame of the stack - the entry point the scenario called -
+				// because the inner frames change from one sample to the next and the signature must replay.
+				return "sonic", outermostSonicFrame(g)
 			}
 			if strings.HasPrefix(l, "sonicverif/") {
 				return "harness", ""
@@ -127,6 +142,24 @@ func hangOrigin(stack string) (origin, site string) {
 		}
 	}
 	return "harness", ""
+}
+
+func outermostSonicFrame(g string) string {
+	site := ""
+	for _, l := range strings.Split(g, "\n") {
+		if strings.HasPrefix(l, "sonicverif/scen.RunOne") {
+			break
+		}
+		if strings.HasPrefix(l, "github.com/talostrading/sonic") {
+			fn := l
+			if i := strings.LastIndex(fn, "("); i > 0 {
+				fn = fn[:i]
+			}
+			fn = strings.NewReplacer("(", "", ")", "", "*", "").Replace(fn)
+			site = strings.Trim(strings.TrimPrefix(fn, "github.com/talostrading/sonic"), "/.")
+		}
+	}
+	return site
 }
 
 var raceLog *os.File
@@ -392,7 +425,24 @@ func main() {
 				TraceHash: o.TraceHash, Tape: o.Tape, TapeLenBeforeMinimisation: len(o.Tape), Notes: append(o.Notes, "not minimised: the failing run took "+lastRunWall.Round(time.Millisecond).String())}
 			slowFailure = true
 		} else {
+			os.MkdirAll(*replayDir, 0o755)
+			onHangMinimising = func() {
+				rp := Replay{Property: o.Prop, Scenario: o.Scenario, Variant: o.Variant, Seed: o.Seed, Thorough: thorough, Signature: o.Fail.Sig, Message: o.Fail.Msg,
+					TraceHash: o.TraceHash, Tape: o.Tape, TapeLenBeforeMinimisation: len(o.Tape), Notes: append(o.Notes, "not minimised: a shortened tape made the run spin for ever")}
+				path := fmt.Sprintf("%s/%s-%d-w%d-%d.json", *replayDir, *prop, *seed, *worker, len(res.Violations))
+				js, _ := json.MarshalIndent(rp, "", " ")
+				os.WriteFile(path, js, 0o644)
+				res.Violations = append(res.Violations, path)
+				res.WallS = time.Since(start).Seconds()
+				if *out != "" {
+					js, _ := json.Marshal(res)
+					os.WriteFile(*out, js, 0o644)
+				}
+				os.Exit(1)
+			}
+			minimising = true
 			rp = minimise(sc, o, thorough, known, avoid, *minBudget)
+			minimising = false
 		}
 		os.MkdirAll(*replayDir, 0o755)
 		path := fmt.Sprintf("%s/%s-%d-w%d-%d.json", *replayDir, *prop, *seed, *worker, len(res.Violations))
@@ -506,7 +556,13 @@ func minimise(sc *scen.Scenario, o *scen.Outcome, thorough bool, known func(stri
 	best := append([]uint32(nil), o.Tape...)
 	orig := len(best)
 	test := func(t []uint32) (bool, *scen.Outcome) {
+		curRunMu.Lock()
+		curRun = runInfo{prop: o.Prop, scenario: sc.Name, variant: o.Variant, seed: o.Seed, thorough: thorough, tape: t, started: time.Now(), active: true}
+		curRunMu.Unlock()
 		r := scen.RunOne(o.Prop, sc, o.Variant, o.Seed, t, false, thorough, known, avoid)
+		curRunMu.Lock()
+		curRun.active = false
+		curRunMu.Unlock()
 		if r.Harness == "" && r.Fail != nil && r.Fail.Sig == target {
 			return true, &r
 		}
